@@ -23,7 +23,7 @@ reg("C16", "exploration", "model + reference key selection, bounded-exhaustive o
     "ed25519 signatures by another key do not verify.",
     "DESIGN.md 3/C16")
 reg("C20", "fault_enumeration", "fault-injecting io.Reader, every failure point x error kind x delivery pattern; independent chain verifier on returned tokens",
-    "Exhaustive enumeration (5790 cases) of failure points 0..31, three error kinds, two timings and three delivery patterns for all four operations that draw randomness; both Appends again with a source that replays the parent's own stream and Build / New / Append with a source starting with 32 zero bytes (failure points 32..63); Build asked again on the same builder after the failure; plus controls.",
+    "Exhaustive enumeration (5796 cases) of failure points 0..31, three error kinds, two timings and three delivery patterns for all four operations that draw randomness; both Appends again with a source that replays the parent's own stream and Build / New / Append with a source starting with 32 zero bytes (failure points 32..63); Build asked again on the same builder after the failure; readers passed by value whose value is their zero value; plus controls.",
     "GenerateKey draws exactly 32 bytes with io.ReadFull (pinned toolchain).",
     "DESIGN.md 3/C20")
 reg("C01", "fault_enumeration", "mutation catalogue decided by an independent chain verifier (R3); run.iter hook shows no Datalog before rejection",
